@@ -265,7 +265,7 @@ pub fn gen_op(r: &mut Rng, d: Dim, out: &mut Vec<u8>, f: &Feat) {
             idiom_n(r, d, out, k);
         }
         76..=79 => {
-            let k = 78 + r.below(8);
+            let k = 78 + r.below(9);
             idiom_n(r, d, out, k);
         }
         _ => gen_text(r, out),
@@ -626,6 +626,21 @@ pub fn idiom_n(r: &mut Rng, d: Dim, out: &mut Vec<u8>, k: u64) {
             }
             gen_text(r, out);
         }
+        86 => {
+            if d.cols >= 2 {
+                out.extend(b"\r");
+                for _ in 0..(d.cols - 2).min(140) {
+                    out.push(b'a' + r.below(26) as u8);
+                }
+                out.extend(r.pick(WIDE).as_bytes());
+                out.push(b'w'); // wraps: the row above is flagged, its last two columns hold a wide character
+                out.extend(format!("\x1b[A\x1b[{}G", d.cols - 1).as_bytes()); // onto the first half
+                if r.chance(1, 3) {
+                    out.extend(format!("\x1b[4{}m", r.below(8)).as_bytes());
+                }
+                out.extend(*r.pick(&[&b"\x1b[1K"[..], b"\x1b[1J", b"\x1b[K", b"\x1b[J", b"\x1b[X", b"\x1b[?1K", b"\x1b[?1J", b"\x1b[1K", b"\x1b[1J"]));
+            }
+        }
         _ => {}
     }
 }
@@ -961,6 +976,18 @@ pub fn fam_resize(r: &mut Rng) -> Case {
         observers_all(&mut lines);
         return Case { lines };
     }
+    if !resizing && r.chance(1, 10) {
+        // whole-row erases with the same non-default pen before and after a widening resize
+        let pen = *r.pick(&["44", "7", "1;41", "4", "32;45"]);
+        let er = *r.pick(&["\x1b[2J", "\x1b[2K", "\x1b[J", "\x1b[1J"]);
+        lines.push(format!("P {}", hex(format!("\x1b[{pen}m{er}").as_bytes())));
+        let nc = d.cols + 1 + r.below(4) as u16;
+        lines.push(format!("SIZE {} {}", d.rows, nc));
+        let er2 = *r.pick(&["\x1b[2J", "\x1b[2K", "\x1b[J", "\x1b[1J", "\x1b[H\x1b[J"]);
+        lines.push(format!("P {}", hex(er2.as_bytes())));
+        observers_all(&mut lines);
+        return Case { lines };
+    }
     if !resizing && r.chance(1, 5) {
         // rows in the history at the old width, a wider screen, a row filled to the new right edge
         // (pending wrap), then a scrolled-back view: the view row under the cursor is narrower than
@@ -982,8 +1009,17 @@ pub fn fam_resize(r: &mut Rng) -> Case {
             fill.extend(b"\x1b[1K"); // the last cell becomes empty again, the cursor stays pending
         }
         lines.push(format!("P {}", hex(&fill)));
+        lines.push("SNAP 0".into());
         lines.push(format!("SB {}", 1 + r.below(u64::from(d.rows) + 2)));
         observers_all(&mut lines);
+        // the scrolled view (rows of the old width) diffed against the unscrolled snapshot and back
+        lines.push("DIFF state 0".into());
+        lines.push("DIFF contents 0".into());
+        lines.push(format!("ROWSD 0 0 {}", d.cols));
+        lines.push("SNAP 1".into());
+        lines.push("SB 0".into());
+        lines.push("DIFF state 1".into());
+        lines.push(format!("ROWSD 1 0 {}", d.cols));
         lines.push(format!("ROWSF 0 {}", d.cols));
         lines.push("VIEWS".into());
         return Case { lines };
@@ -1048,6 +1084,16 @@ pub fn fam_csi(r: &mut Rng) -> Case {
         lines.push("DUMP".into());
         lines.push("LOG".into());
         return Case { lines };
+    }
+    if r.chance(1, 12) {
+        idiom_n(r, d, &mut op, 86);
+        if !op.is_empty() {
+            lines.push(format!("P {}", hex(&op)));
+            lines.push("DUMP".into());
+            lines.push("LOG".into());
+            lines.push("FMT state".into());
+            return Case { lines };
+        }
     }
     match r.below(10) {
         0..=5 => {
@@ -1260,6 +1306,14 @@ pub fn fam_alt(r: &mut Rng) -> Case {
         lines.push(format!("SB {}", r.below(4)));
     }
     lines.push("DUMP".into());
+    if r.chance(1, 3) {
+        // text near the top, pushed down by SD / RI / IL, then out and in again through 1049 (which clears)
+        let mv = *r.pick(&["\x1b[2T", "\x1b[5T", "\x1b[H\x1bM\x1bM", "\x1b[H\x1b[3L", "\x1b[T"]);
+        let out_ = *r.pick(&["\x1b[?47l", "\x1b[?1049l"]);
+        lines.push(format!("P {}", hex(format!("\x1b[Hab\x1b[42mc{mv}{out_}\x1b[?1049h").as_bytes())));
+        lines.push("DUMP".into());
+        lines.push("FMT state".into());
+    }
     let exit = *r.pick(&["\x1b[?47l", "\x1b[?1049l"]);
     lines.push(format!("P {}", hex(exit.as_bytes())));
     lines.push("DUMP".into());
